@@ -1,17 +1,19 @@
 --------------------------- MODULE TraceMonProgress ---------------------------
 EXTENDS MonProgress, TraceBase
 VARIABLE l
-tvars == <<mode, due, l>>
+tvars == <<mode, due, offered, l>>
 TInit == MPInit /\ l = 1
 Ev == TraceLog[l]
 IsEvent(e) == l <= TraceLen /\ Ev.e = e /\ l' = l + 1
 TMode == IsEvent("Mode") /\ Mode(Ev.m)
 TAccept == IsEvent("Accept") /\ Accept(Ev.to, Ev.p, Ev.t, Ev.must)
+TOffer == IsEvent("Offer") /\ Offer(Ev.side, Ev.p, Ev.t)
+TTake == IsEvent("Take") /\ Take(Ev.side, Ev.p, Ev.t)
 TWrite == IsEvent("Write") /\ Write(Ev.side, Ev.p, Ev.t)
 TEnd == IsEvent("End") /\ End(Ev.t)
 TReset == IsEvent("Reset") /\ MPReset
 \* event "Exit" (a program terminated) has no enabled action
-TNext == TMode \/ TAccept \/ TWrite \/ TEnd \/ TReset
+TNext == TMode \/ TAccept \/ TOffer \/ TTake \/ TWrite \/ TEnd \/ TReset
 TraceSpec == TInit /\ [][TNext]_tvars
 TraceAccepted ==
     LET d == TLCGet("stats").diameter IN
